@@ -149,8 +149,9 @@ root("objref",
 root("inherit",
      {"spaces": {"S": {"refs": {"r": 1}, "cells": {"a": L + "x + r", "f": L + "a(x) + 1"}},
                  "Sub": {"bases": ["S"]},
-                 "B2": {"refs": {"r": 5}, "cells": {"a": L + "x + r + 300"}}}},
-     [q("S", "f", 0), q("Sub", "f", 0), q("Sub", "a", 1), q("Sub", "a", 0)],
+                 "B2": {"refs": {"r": 5}, "cells": {"a": L + "x + r + 300"}},
+                 "O2": {"refs": {"sub": obj("Sub")}, "cells": {"oa": L + "sub.a(x) + 1"}}}},
+     [q("S", "f", 0), q("Sub", "f", 0), q("Sub", "a", 1), q("Sub", "a", 0), q("O2", "oa", 0)],
      [set_ref("S", "r", 2), del_ref("S", "r"), set_ref("Sub", "r", 3), del_ref("Sub", "r"),
       set_formula("S", "a", L + "x + r + 100"), set_formula("Sub", "a", L + "x + r + 200"),
       del_cells("Sub", "a"), del_cells("S", "a"), new_cells("S", "a", L + "x + r + 400"),
